@@ -91,6 +91,10 @@ def write_workspace(root, ws):
         d = os.path.join(root, c["dir"])
         os.makedirs(d, exist_ok=True)
         groups = "".join('[[order.group]]\nid = "%s"\nversion = "0.1.0"\n' % dep[len("libcnb:"):] for dep in c["deps"] if dep.startswith("libcnb:"))
+        if not groups:
+            # (an order needs at least one group: a composite of buildpacks that are not built here names one of those)
+            groups = '[[order.group]]\nid = "external/procfile"\nversion = "2.0.1"\n'
+
         with open(os.path.join(d, "buildpack.toml"), "w") as f:
             f.write('api = "0.10"\n\n[buildpack]\nid = "%s"\nversion = "0.1.0"\n\n[[order]]\n%s' % (c["id"], groups))
         if c.get("cargo_toml"):
